@@ -116,9 +116,10 @@ func (k Keeper) GetStakerList(ctx sdk.Context, assetID string) types.StakerList 
 
 // GetAllStakerListAssets return stakerList combined with assetIDs they belong to, used for genesisstate exporting
 func (k Keeper) GetAllStakerListAssets(ctx sdk.Context) (ret []types.StakerListAssets) {
-	store := ctx.KVStore(k.storeKey)
-	// set assetID with "" to iterate all stakerList with every assetIDs
-	iterator := sdk.KVStorePrefixIterator(store, types.NativeTokenStakerListKey(""))
+	// set assetID with "" to iterate all stakerList with every assetIDs; the prefix store strips
+	// the prefix of the collection from the keys, so that the remaining key is the assetID
+	store := prefix.NewStore(ctx.KVStore(k.storeKey), types.NativeTokenStakerListKey(""))
+	iterator := sdk.KVStorePrefixIterator(store, []byte{})
 	defer iterator.Close()
 	ret = make([]types.StakerListAssets, 0)
 	for ; iterator.Valid(); iterator.Next() {
